@@ -163,25 +163,37 @@ def check_src(rep, prog, fm):
     st = pelx.new_stream(I)
     cfg = I.new("pel.peltool.config.Config")
     I.call(PT + "parsePELSummary", [st, cfg])
-    sts = [e for e in I.events if e.kind == "dict_store" and e.func == PT + "parsePELSummary" and e.data[1] == Const("SRC")]
+    sts = [e for e in I.events if e.kind == "dict_store" and e.data[1] == Const("SRC")]
     sf = [e for e in I.events if e.kind == "opaquecall" and e.data[0] == PT + "sectionFun"]
-    ok = len(sts) == 1 and len(sf) == 1 and sts[0].loops and sf[0].loops and sts[0].loops[-1] is sf[0].loops[-1]
+    ok = len(sts) == 1 and len(sf) == 1 and bool(sf[0].loops)
+    detail = "no loop over the optional sections that records the primary SRC"
     if ok:
-        L = sts[0].loops[-1]
+        from .c01 import exact_section_count_loop
+        L = sf[0].loops[-1]
         sid = sf[0].data[1][2]
-        val = sts[0].data[2]
         secj = sf[0].data[1][1]
+        is_ps = compare("eq", sid, Const(0x5053))
+        from ..interp import _strip_undef
+        val = _strip_undef(sts[0].data[2])
         okv = isinstance(val, Op) and val.op == "getitem" and val.args[1] == Const("Reference Code") and \
             any(x == secj for x in walk(val)) and any(is_const(x, str) and x.v == "Primary SRC" for x in walk(val))
-        okg = compare("eq", sid, Const(0x5053)) in conj(sts[0].guard)
-        from .c01 import exact_section_count_loop
         okt = exact_section_count_loop(L)[0]
-        brk = [e for e in I.events[L.events[0]:L.events[1]] if e.kind == "break"]
-        okb = all(compare("eq", sid, Const(0x5053)) in conj(b.guard) for b in brk)
+        base = getattr(L, "body_guard_full", set())
+        if L in sts[0].loops:
+            # recorded inside the loop, at the primary SRC; the scan may stop only there
+            okg = is_ps in conj(sts[0].guard)
+            brk = [e for e in I.events[L.events[0]:L.events[1]] if (e.kind == "break" or (e.kind == "return" and e.func == L.func))
+                   and e.loops and e.loops[-1] is L]
+            okb = all(is_ps in conj(b.guard) for b in brk)
+        else:
+            # handed out of the loop by a return at the primary SRC (first-match search)
+            lr = [x for x in walk(val) if isinstance(x, Op) and x.op == "loopret" and x.args[0] == Const(L.lid)]
+            rets = [e for e in I.events[L.events[0]:L.events[1]] if e.kind == "return" and e.func == L.func and e.loops and e.loops[-1] is L]
+            okg = bool(lr) and len(rets) == 1 and is_ps in conj(rets[0].guard)
+            rel = [c for c in conj(rets[0].guard) if c not in base] if rets else []
+            okb = okg and all(c == is_ps or (isinstance(c, Op) and c.op in ("ge", "le", "lt", "gt", "not")) for c in rel)
         ok = okv and okg and okt and okb
         detail = "value ok=%s, taken when id==PS=%s, scans all sections=%s, stops only at PS=%s" % (okv, okg, okt, okb)
-    else:
-        detail = "no loop over the optional sections that records the primary SRC"
     rep.check(ok, rule, "summary SRC = Reference Code of the Primary SRC section, searched among all optional sections", "parsePELSummary",
               "summary['SRC'] = ...", "the reference code used by --src/--src-exclude is not that of the primary SRC wherever it is in the "
               "log (%s)" % detail)
